@@ -136,7 +136,9 @@ def encode_cv(pc, log_start, r, lay):
         kinds.append("index")
     sec_len = 32 + len(body)
     data_off = crc.log_to_phys(log_start + 32)
-    if not packets and lay.get("zero_data_offset"):
+    if not packets and (lay.get("zero_data_offset") or lay.get("xml_first")):
+        # no packet to point at: the reference implementation stores 0. (With the XML first the empty
+        # section may be the last thing in the file; an offset equal to the file length would point nowhere.)
         data_off = 0
     index_off = crc.log_to_phys(log_start + 32 + index_at) if index_at is not None else 0
     hdr = struct.pack("<B7xQQQ", 1, sec_len, data_off, index_off)
@@ -514,7 +516,8 @@ def gen_layout(r, exotic=True):
     return {
         "packets": r.choice(["plain", "random", "random", "ahead"]),
         "nondata": r.random() < 0.5, "nondata_p": r.choice([0.2, 0.5, 1.0]), "trailing_index": r.random() < 0.4, "data_first": r.random() < 0.5,
-        "pad": r.choice(["none", "small", "page-edge", "random"]), "order": r.choice(["natural", "shuffled"]), "xml_first": r.random() < 0.2, "zero_data_offset": r.random() < 0.3,
+        "pad": r.choice(["none", "small", "page-edge", "random"]), "order": r.choice(["natural", "shuffled"]), "xml_first": r.random() < 0.3, "zero_data_offset": r.random() < 0.3,
+        "tail": r.choice(["free", "exact", "exact", "minus4", "plus4"]),
         "lex": {"ws": r.choice(["newline", "indent", "none", "comments"]), "attr_order": r.choice(["fixed", "shuffled"]), "quote": r.choice(["double", "single"]), "empty": r.choice(["explicit", "selfclose", "cdata"]),
                 "string": r.choice(["cdata", "escaped", "numeric", "mixed"]), "float": r.choice(["repr", "exp"]), "decl": r.choice(["full", "full", "short", "standalone", "none"]), "omit_optional": r.random() < 0.6,
                 "element_order": r.choice(["fixed", "shuffled"]), "trailing_spaces": r.choice([0, 0, 3, 500]), "codecs": r.random() < 0.3},
@@ -564,8 +567,19 @@ def encode(scene, r, lay, hooks=None):
             log += bytes(xml_len_reserved)
             while len(log) % 4:
                 log += b"\x00"
-        for o in objs:
+        for oi, o in enumerate(objs):
             pos = pad_to(len(log))
+            if lay["xml_first"] and oi == len(objs) - 1 and lay.get("tail", "free") != "free":
+                # the last section ends exactly on / just before / just after the end of the last page's payload
+                if o[0] == "pc":
+                    size = len(encode_cv(scene["pointclouds"][o[1]], pos, random.Random(base_seed + 7919 * o[1]), lay)[0])
+                elif o[0] == "img":
+                    rep = scene["images"][o[1]][o[2]]
+                    size = len(encode_blob(rep["blob"]["data"] if o[3] == "blob" else rep["mask"]["data"]))
+                else:
+                    size = len(encode_blob(scene["blobs"][o[1]]))
+                target = {"exact": 0, "minus4": 1016, "plus4": 4}[lay["tail"]]
+                pos += (target - (pos + size)) % 1020
             log += bytes(pos - len(log))
             offsets[o] = crc.log_to_phys(pos)
             info["start_residues"].append(pos % 1020)
